@@ -353,24 +353,22 @@ func (o obj) String() string {
 // snapshot records every object in root except `skip` and what is below it.
 // dirMetaSkip is the directory whose own mtime/ctime are not compared (the
 // parent of the target: creating/replacing the target legitimately changes it).
+//
+// The walk must see the same thing whatever the uid: when an object's mode
+// (which Extract may have changed) would stop the owner from listing a
+// directory or reading a file, the mode is RECORDED first and then opened up
+// (the sandbox is thrown away after the case).
 func snapshot(root, skip, dirMetaSkip string) map[string]obj {
 	m := map[string]obj{}
-	filepath.WalkDir(root, func(p string, d fs.DirEntry, err error) error {
-		rel, _ := filepath.Rel(root, p)
+	var visit func(p, rel string)
+	visit = func(p, rel string) {
 		if p == skip {
-			if d != nil && d.IsDir() {
-				return filepath.SkipDir
-			}
-			return nil
-		}
-		if err != nil {
-			m[rel] = obj{err: err.Error()}
-			return nil
+			return
 		}
 		fi, err := os.Lstat(p)
 		if err != nil {
 			m[rel] = obj{err: err.Error()}
-			return nil
+			return
 		}
 		o := obj{mode: fi.Mode(), mtime: fi.ModTime().UnixNano()}
 		if st, ok := fi.Sys().(*syscall.Stat_t); ok {
@@ -385,9 +383,24 @@ func snapshot(root, skip, dirMetaSkip string) map[string]obj {
 			if p == dirMetaSkip {
 				o.mtime, o.ctime = 0, 0
 			}
+			if fi.Mode().Perm()&0o700 != 0o700 {
+				os.Chmod(p, fi.Mode().Perm()|0o700)
+			}
+			ents, err := os.ReadDir(p)
+			if err != nil {
+				o.err = err.Error()
+			}
+			m[rel] = o
+			for _, e := range ents {
+				visit(filepath.Join(p, e.Name()), filepath.Join(rel, e.Name()))
+			}
+			return
 		case fi.Mode().IsRegular():
 			o.typ = "file"
 			o.size = fi.Size()
+			if fi.Mode().Perm()&0o400 == 0 {
+				os.Chmod(p, fi.Mode().Perm()|0o400)
+			}
 			b, err := os.ReadFile(p)
 			if err != nil {
 				o.hash = "unreadable:" + err.Error()
@@ -398,8 +411,8 @@ func snapshot(root, skip, dirMetaSkip string) map[string]obj {
 			o.typ = "other"
 		}
 		m[rel] = o
-		return nil
-	})
+	}
+	visit(root, ".")
 	return m
 }
 
